@@ -143,7 +143,7 @@ class PyFn:
 
 
 class ClosureV:
-    __slots__ = ('name', 'caps')
+    __slots__ = ('name', 'caps', 'body_fn')
 
     def __init__(self, name, caps):
         self.name = name; self.caps = caps
